@@ -384,3 +384,43 @@ func starCycleGraphs() []ggraph {
 	}
 	return out
 }
+
+// starDiamondGraphs: a module with two `export *` arms that both provide the same names from one original binding
+// (so the names are not ambiguous), the arms being named re-exports, import-then-export pairs or further `export *`;
+// the module is the entry point, or is consumed as a namespace object by the entry.
+func starDiamondGraphs() []ggraph {
+	arms := []string{
+		"export {x, y} from \"./d.mjs\";\n",
+		"import {x, y} from \"./d.mjs\";\nexport {x, y};\n",
+		"export * from \"./d.mjs\";\n",
+		"export {x} from \"./d.mjs\";\nexport {y} from \"./d.mjs\";\nexport const onlyHere%d = %d;\n",
+	}
+	var out []ggraph
+	for ai, a := range arms {
+		for bi, b := range arms {
+			for _, asEntry := range []bool{true, false} {
+				fa, fb := a, b
+				if strings.Contains(fa, "%d") {
+					fa = fmt.Sprintf(fa, 1, 1)
+				}
+				if strings.Contains(fb, "%d") {
+					fb = fmt.Sprintf(fb, 2, 2)
+				}
+				files := map[string]string{
+					"/d.mjs": "$(\"d\", \"start\");\nexport let x = \"x-from-d\";\nexport const y = \"y-from-d\";\nexport function setX(v) { x = v; }\n",
+					"/b.mjs": "$(\"b\", \"start\");\n" + fa,
+					"/c.mjs": "$(\"c\", \"start\");\n" + fb,
+					"/m.mjs": "export * from \"./b.mjs\";\nexport * from \"./c.mjs\";\n$(\"m\", \"start\");\nexport const own = \"own-m\";\n",
+				}
+				entry := "/m.mjs"
+				if !asEntry {
+					entry = "/entry.mjs"
+					files["/entry.mjs"] = "import * as ns from \"./m.mjs\";\nimport {setX} from \"./d.mjs\";\nexport const done = 1;\n$(\"entry\", \"ns\", Object.keys(ns).sort(), ns.x, ns.y, ns.own);\nsetX(\"changed\");\n$(\"entry\", \"live\", ns.x, ns[\"x\"]);\n"
+				}
+				out = append(out, ggraph{Files: files, Entry: entry, EntryKind: "esm", Kinds: map[string]string{"m": "esm"},
+					Desc: []string{fmt.Sprintf("star-diamond armB=%d armC=%d entry=%v", ai, bi, asEntry)}})
+			}
+		}
+	}
+	return out
+}
